@@ -1424,7 +1424,16 @@ class ReadCdF(Format):
             elif c2 == 2:
                 s["_c2"] = gen.byte_string(rng, 296)
             if sc == 2:
-                s["_q"] = gen_struct(self.Q, rng)
+                q = gen_struct(self.Q, rng)
+                if rng.random() < 0.7:
+                    # a frame as a drive delivers it: ADR 1 (position), 2 (catalogue number) or 3 (ISRC), and the CRC of the first
+                    # ten bytes (x^16 + x^12 + x^5 + 1, stored inverted)
+                    import binascii
+
+                    q["adr"] = rng.choice([1, 1, 2, 3])
+                    q["crc"] = 0
+                    q["crc"] = binascii.crc_hqx(bytes(self.Q.encode(q))[:10], 0) ^ 0xFFFF
+                s["_q"] = q
             elif sc in (1, 4):
                 s["_raw"] = gen.byte_string(rng, 96)
             v["_sectors"].append(s)
